@@ -41,6 +41,24 @@ func runC04(c *Ctx) {
 	if d == nil {
 		return
 	}
+	r.Rule("R04-relaunch", "every go halts whatever the engine still has registered - unconditionally - before it launches: the engine refuses Analyze while a finished search is still registered", 2)
+	c.guard("R04-relaunch", func() {
+		ok, detail := ensureInactiveShape(d)
+		r.Check(ok, "R04-relaunch", "ensureInactive halts the engine on every path", c.pos(d.ensureInactive.Pos()), "", detail)
+		// the go arm calls it before Analyze
+		good := false
+		for _, b := range d.process.Blocks {
+			if d.armOf(b) != "go" {
+				continue
+			}
+			for _, ins := range b.Instrs {
+				if call, ok := ins.(ssa.CallInstruction); ok && call.Common().StaticCallee() == d.engAnalyze {
+					good = len(d.callsDominating(b, d.ensureInactive)) > 0
+				}
+			}
+		}
+		r.Check(good, "R04-relaunch", "the go arm halts the previous search before Analyze", c.pos(d.process.Pos()), "", "")
+	})
 	c.guard("R04-single", func() { c04Single(c, d) })
 	c.guard("R04-complete", func() { c04Complete(c, d) })
 	c.guard("R04-rootpv", func() { c04RootPV(c) })
@@ -105,7 +123,7 @@ func c04Single(c *Ctx, d *driverModel) {
 						break
 					}
 					if ifi, ok := dd.Instrs[len(dd.Instrs)-1].(*ssa.If); ok {
-						onTrue := dd.Succs[0] == cur || (dd.Succs[0].Dominates(cur) && !dd.Succs[1].Dominates(cur))
+						onTrue := onEdge(dd, 0, cur)
 						if cas != nil && ifi.Cond == cas && onTrue {
 							dom = true
 						}
@@ -176,7 +194,7 @@ func c04Single(c *Ctx, d *driverModel) {
 						}
 						if ifi, ok := dd.Instrs[len(dd.Instrs)-1].(*ssa.If); ok {
 							if bo, ok := ifi.Cond.(*ssa.BinOp); ok && bo.Op == token.NEQ {
-								if ex, ok := bo.X.(*ssa.Extract); ok && ex.Tuple == cv && (dd.Succs[1] == cur || dd.Succs[1].Dominates(cur)) {
+								if ex, ok := bo.X.(*ssa.Extract); ok && ex.Tuple == cv && onEdge(dd, 1, cur) {
 									afterAnalyze = true
 								}
 							}
@@ -228,7 +246,7 @@ func c04Complete(c *Ctx, d *driverModel) {
 					if ifi, ok := dd.Instrs[len(dd.Instrs)-1].(*ssa.If); ok {
 						e := pathExpr(ifi.Cond)
 						if strings.Contains(e, "infinite") {
-							onFalse := dd.Succs[1] == cur || (dd.Succs[1].Dominates(cur) && !dd.Succs[0].Dominates(cur))
+							onFalse := onEdge(dd, 1, cur)
 							neg := strings.HasPrefix(e, "!")
 							good = onFalse != neg
 							detail = "guard " + e
@@ -282,7 +300,7 @@ func c04Complete(c *Ctx, d *driverModel) {
 					if ifi, ok := dd.Instrs[len(dd.Instrs)-1].(*ssa.If); ok {
 						if bo, ok := ifi.Cond.(*ssa.BinOp); ok {
 							if ex, ok := bo.X.(*ssa.Extract); ok && ex.Tuple == ssa.Value(haltCall) && ex.Index == 1 {
-								onTrue := dd.Succs[0] == cur || (dd.Succs[0].Dominates(cur) && !dd.Succs[1].Dominates(cur))
+								onTrue := onEdge(dd, 0, cur)
 								onSuccess = (bo.Op == token.EQL && onTrue) || (bo.Op == token.NEQ && !onTrue)
 							}
 						}
